@@ -54,12 +54,16 @@ def model_lines(c):
     g = common.enc_graph(c["G"]); D = common.enc_list(c["D"]); n = c["G"]["n"]
     ls = [["ewd"] + g + D + [0], ["lineq"] + g + D + g + common.enc_list(c["E"]), ["rank"] + g + D + [0] if c["rank"] else ["info"] + g, ["gon"] + g + [n, 0] if c["gon"] else ["info"] + g]
     for q in common.min_vertices(c["D"]): ls.append(["ewdq"] + g + [q] + D)
+    ls.append(["greedy"] + g + common.enc_list(list(range(n))) + D)      # last line: the greedy solver has a budget of 10*|V| moves, its verdict is compared with the model's greedy run
     return ls
 def judge(c, r, mo):
     if "exc" in r: return [{"what": "presentation %d raised %s: %s" % (c["variant"], r["exc"], r.get("msg"))}]
     if any(x[0] == "FUEL" for x in mo): return []
     o = r["ok"]; n = c["G"]["n"]; out = []; w = mo[0][0] == "1"; tag = "presentation %d%s" % (c["variant"], " (renamed)" if "perm" in c else "")
-    for k in ("plain", "opt", "isw", "greedy"):
+    gl = mo[-1]; mo = mo[:-1]
+    if "greedy" in o and gl[0] != "FUEL" and o["greedy"] != (gl[0] != "fail"):
+        out.append({"what": "%s: greedy solver's verdict %s, the model's greedy run (budget 10*|V| moves) says %s" % (tag, o["greedy"], gl[0] != "fail")})
+    for k in ("plain", "opt", "isw"):
         if k in o and o[k] != w: out.append({"what": "%s: verdict %s=%s, the answer for this multigraph and divisor is %s" % (tag, k, o[k], w)})
     if o["lineq"] != (mo[1][0] == "1"): out.append({"what": "%s: linear_equivalence=%s, answer %s" % (tag, o["lineq"], mo[1][0])})
     if c["rank"] and o["rank"] != int(mo[2][0]): out.append({"what": "%s: rank=%s, answer %s" % (tag, o["rank"], mo[2][0])})
